@@ -1532,7 +1532,7 @@ def _report_replays(ctx, draws: list, who: str) -> None:
 
 def _run_rng_stream(case, ctx):
     """One fresh interpreter builds cheap artifacts until far more random bytes were drawn than any plausible buffer
-    holds; the whole M-RNG ledger of that interpreter is checked for replays (rule 5; thorough: also rules (1)-(4))."""
+    holds; the whole M-RNG ledger of that interpreter is checked for replays (rule 5)."""
     rng = ctx.rng
     kinds = []
     for _ in range(case["n"]):
@@ -1565,10 +1565,8 @@ def _run_rng_stream(case, ctx):
     ctx.count("rng_stream_children")
     v0 = ctx._viol_in_case  # pylint: disable=protected-access
     _report_replays(ctx, draws, "fresh interpreter, one long batch")
-    if ctx.tier == "thorough":  # the pairwise rules over thousands of artifacts are quadratic: thorough tier only
-        stats: collections.Counter = collections.Counter()
-        fnd = judge(draws, rec["arts"], calls, stats)
-        _report(ctx, fnd, rec, "fresh interpreter, one long batch")
+    # (the pairwise rules (1)-(4) are quadratic in the number of artifacts; they are judged on the ordinary histories)
+    del calls
     if ctx._viol_in_case == v0:  # pylint: disable=protected-access
         ctx.ok(["rng_stream", total // 16384], sample={"artifacts": len(rec["arts"]), "draws": len(draws), "bytes_drawn": total})
 
